@@ -420,7 +420,7 @@ def r17g(ck, fb):
                 return field in fs and resp.local_tainted(pl_local(p))
             return Taint(b, place_src=src)
         en = stored('enable')
-        tested = [i for i, blk in enumerate(b.blocks) if blk['t']['k'] == 'switch' and en.op_tainted(blk['t']['discr'])]
+        tested = [i for i, blk in enumerate(b.blocks) if i in cfg.live_blocks(b) and blk['t']['k'] == 'switch' and en.op_tainted(blk['t']['discr'])]
         ck.require(bool(tested), 'R17g', 'stored-enable-tested:%s' % who, b.where(),
                    '%s builds the session data from the stored user record without looking at its enable flag: the administrator disables the user '
                    '(enable=false, shown in the user list) and a fresh login through the identity provider still returns a token' % who,
